@@ -438,9 +438,26 @@ def embed(ctx, stmts):
     raise ValueError(ctx)
 
 
+def many_params():
+    """deterministic family: functions with 239 .. 300 symbol parameters.  From the 241st on the parameter's register is 16 above
+    the stack slot its argument arrives in (the allocator skips the temporaries 0xF0-0xFF): `janetc_fn_moveargs` (fix 71c4f8f)
+    emits the entry moves, Compile/Model.lean `fnMoveArgs` mirrors them.  -> list of (id, source, feature list)"""
+    out = []
+    for n in (239, 240, 241, 242, 255, 256, 257, 258, 272, 273, 300):
+        ps = " ".join("p%d" % i for i in range(n))
+        args = " ".join(str(3000 + i) for i in range(n))
+        picks = sorted({0, 1, 238, 239, 240, 241, 254, 255, 256, 257, n - 2, n - 1} & set(range(n)))
+        use = " ".join("p%d" % i for i in picks)
+        ft = ["params>240" if n > 240 else "params<=240", "params=%d" % n]
+        out.append(("pm%d.plain" % n, "(RES ((fn [%s] (tuple %s)) %s))" % (ps, use, args), ft))
+        out.append(("pm%d.self" % n, "(RES ((fn self_ [%s] (def a 3) (var m 10) (set m p%d) (tuple m a %s)) %s))" % (ps, n - 1, use, args), ft + ["params-self"]))
+        out.append(("pm%d.inner" % n, "(RES ((fn [] (def a 3) (first (tuple ((fn [%s] (if p%d (tuple %s) :no)) %s) a)))))" % (ps, n - 1, use, args), ft))
+    return out
+
+
 def programs(rng, n):
     """-> list of (id, source, feature list); program i appears in every context"""
-    out = []
+    out = many_params()
     for i in range(n):
         r = rng.fork("cp%d" % i)
         g = G(r, closures=not r.chance(1, 3), depth=r.range(2, 5))
